@@ -1,7 +1,7 @@
 """C17 - fitting is deterministic, side-effect free and history independent (DESIGN.md section 5, C17).
 
 E2: per estimator, breadth-first search from the unfitted object over real API calls
-  fit(D_a) / fit(D_b: other n and d) / fit(indices of D_a through the array preprocessor) / set_params (alternative
+  fit(D_a) / fit(D_b: other n and d) / fit(D_a's points with OTHER labels) / fit(indices of D_a through the array preprocessor) / set_params (alternative
   options, array-valued options, two different array preprocessors) / all query methods / get_metric + get_mahalanobis_matrix
   (handles kept) / overwrite the returned matrix / set_threshold / calibrate_threshold / clone / pickle round trip,
 states merged on a digest of the complete object state; invariants evaluated after every transition.
@@ -80,11 +80,17 @@ def fit_call(name, est, ds, form, c):
     """(positional args (fresh writable copies), kwargs) for a fit event."""
     args = [np.array(a, copy=True) for a in zoo.train_args(name, ds, form)]
     kw = {}
-    if name in ('ITML', 'ITML_Supervised') and ds.name == DA:
+    if name in ('ITML', 'ITML_Supervised') and ds.name.split('~')[0] == DA:
         kw['bounds'] = c['bounds']
-    if name == 'LSML' and ds.name == DA:
+    if name == 'LSML' and ds.name.split('~')[0] == DA:
         kw['weights'] = c['weights']
     return args, kw
+
+
+def get_data(key):
+    if key.endswith('~relabelled'):
+        return data.relabelled(data.dataset(key.split('~')[0]))
+    return data.dataset(key)
 
 
 class World(object):
@@ -117,7 +123,7 @@ def oracle(name, fitkey):
     if fitkey not in _ORACLE:
         _, dkey, form, pkey, prekey = fitkey
         c = consts(name)
-        ds = data.dataset(dkey)
+        ds = get_data(dkey)
         p = zoo.base_params(name, data.dataset(DA))
         if pkey != 'P0':
             p.update(copy.deepcopy(c['pristine']['params'][pkey]))
@@ -142,6 +148,8 @@ def oracle(name, fitkey):
 def events(w):
     name = w.name
     ev = ['fit_a', 'fit_b', 'fit_idx']
+    if zoo.KIND[name] in ('class', 'reg', 'pairs', 'chunks'):
+        ev.append('fit_relabel')          # same points, other labels
     if consts(name)['params']:
         ev += ['set_P1', 'set_PA']
     ev += [e for e in ('set_preA', 'set_preB') if e[4:] != w.prekey]
@@ -162,8 +170,8 @@ def apply(w, ev):
     out = {'ev': ev, 'exc': None, 'snap': None}
     warnings.simplefilter('ignore')
     try:
-        if ev in ('fit_a', 'fit_b', 'fit_idx'):
-            ds = data.dataset(DB if ev == 'fit_b' else DA)
+        if ev in ('fit_a', 'fit_b', 'fit_idx', 'fit_relabel'):
+            ds = get_data(DB if ev == 'fit_b' else (DA + '~relabelled' if ev == 'fit_relabel' else DA))
             form = 'index' if ev == 'fit_idx' else 'formed'
             args, kw = fit_call(name, est, ds, form, c)
             before = digest(args, kw)
@@ -196,7 +204,7 @@ def apply(w, ev):
             est.set_params(preprocessor=c[ev[4:]])
             w.prekey = ev[4:]
         elif ev == 'query_all':
-            ds = data.dataset(w.fit[0])
+            ds = get_data(w.fit[0])
             Q, P = probes(ds)
             Q2, P2 = Q.copy(), P.copy()
             res = {'transform': est.transform(Q2), 'pair_distance': est.pair_distance(P2),
@@ -218,7 +226,7 @@ def apply(w, ev):
             out['res'] = res
             out['args_changed'] = not (np.array_equal(Q, Q2) and np.array_equal(P, P2))
         elif ev == 'get_handles':
-            ds = data.dataset(w.fit[0])
+            ds = get_data(w.fit[0])
             Q, P = probes(ds)
             f = est.get_metric()
             w.metric = (f, Q, np.array([f(p[0], p[1]) for p in P]))
@@ -231,7 +239,7 @@ def apply(w, ev):
             est.set_threshold(0.75)
             w.thr = ('set', 0.75)
         elif ev == 'calibrate':
-            ds = data.dataset(w.fit[0])
+            ds = get_data(w.fit[0])
             Pv = np.array(ds.pairs[::2], copy=True)
             yv = np.array(ds.ypairs[::2], copy=True)
             b = digest(Pv, yv)
@@ -278,7 +286,7 @@ def invariant_factory(name):
         # --- legit failures: index fit without preprocessor, array option of the wrong dimensionality, ...
         if e is not None:
             if ev.startswith('fit'):
-                ok, o = oracle(name, (DB if ev == 'fit_b' else DA, 'index' if ev == 'fit_idx' else 'formed', w.pkey, w.prekey))
+                ok, o = oracle(name, (DB if ev == 'fit_b' else (DA + '~relabelled' if ev == 'fit_relabel' else DA), 'index' if ev == 'fit_idx' else 'formed', w.pkey, w.prekey))
                 if ok == 'ok':
                     v.append(V(site, 'fit_raises', 'fit raised %s (%s) although a fresh instance with the same parameters and '
                                'data fits' % (type(e).__name__, str(e)[:120]), tr))
@@ -312,7 +320,7 @@ def invariant_factory(name):
                         v.append(V(site, 'set_threshold', 'threshold_ is %r after set_threshold(%r)' % (est.threshold_, w.thr[1]), trg))
                     if ev == 'calibrate':
                         ref = copy.deepcopy(o['est'])
-                        ds = data.dataset(w.fit[0])
+                        ds = get_data(w.fit[0])
                         ref.calibrate_threshold(ds.pairs[::2], ds.ypairs[::2], strategy='f_beta', beta=0.5)
                         if ref.threshold_ != est.threshold_:
                             v.append(V(site, 'history_dependent_threshold', 'calibrated threshold_=%r, fresh instance gives %r'
@@ -333,7 +341,7 @@ def invariant_factory(name):
         if ev == 'mutate_M' and w.fit is not None and not w.dirty:
             ok, o = oracle(name, w.fit)
             if ok == 'ok':
-                Q, P = probes(data.dataset(w.fit[0]))
+                Q, P = probes(get_data(w.fit[0]))
                 if not np.array_equal(est.pair_distance(P), o['dist']):
                     v.append(V(site, 'matrix_aliases_state', 'overwriting the returned matrix changed the learned distance', tr))
         return v
@@ -343,11 +351,31 @@ def invariant_factory(name):
 def cases(tier, seed):
     out = [(n, ('bfs', n, BOUNDS[tier]['depth'])) for n in zoo.ALL]
     out.append(('LFDA/arpack', ('lfda_arpack', seed)))
+    for name in LARGE:
+        out.append(('large/' + name, ('large', name, seed)))
     return out
 
 
+# learners whose fit hands the integer random_state to helpers that may switch to randomised algorithms on large inputs
+# (PCA picks a randomised SVD beyond 500 samples with fewer than 10 samples per feature; KMeans; make_spd_matrix)
+LARGE = {'NCA': dict(init='pca', n_components=5, max_iter=3), 'MLKR': dict(init='pca', n_components=5, max_iter=3),
+         'LMNN': dict(init='pca', n_components=5, max_iter=4, n_neighbors=2),
+         'NCA/auto': dict(init='auto', n_components=8, max_iter=3),
+         'SCML_Supervised': dict(k_genuine=2, k_impostor=2, n_basis=40, max_iter=100, output_iter=50, batch_size=5),
+         'RCA_Supervised': dict(n_chunks=200, chunk_size=2), 'ITML_Supervised': dict(max_iter=2, n_constraints=60, prior='random'),
+         'LSML_Supervised': dict(max_iter=2, n_constraints=60, prior='random')}
+
+
+def large_data(seed):
+    rs = np.random.RandomState(5200 + seed)
+    n, d = 520, 60
+    y = np.arange(n) % 4
+    X = np.round((rs.randn(n, d) + 1.5 * rs.randn(4, d)[y]) * 64) / 64
+    return X, y, np.round((X[:, :3].sum(1) + 0.25 * rs.randn(n)) * 64) / 64
+
+
 def cost(spec):
-    return {'MMC': 9, 'MMC_Supervised': 8, 'ITML': 6, 'ITML_Supervised': 6, 'LSML': 7, 'SCML_Supervised': 5}.get(spec[1], 1) if spec[0] == 'bfs' else 0
+    return {'MMC': 9, 'MMC_Supervised': 8, 'ITML': 6, 'ITML_Supervised': 6, 'LSML': 7, 'SCML_Supervised': 5}.get(spec[1], 1) if spec[0] == 'bfs' else (4 if spec[0] == 'large' else 0)
 
 
 def run_case(spec):
@@ -375,6 +403,27 @@ def run_case(spec):
                 sigs.add(('lfda_arpack', dsn, nc))
         return dict(evals=n, sigs=sigs, viol=viol, states=len(sigs), transitions=n,
                     sample={'case': 'LFDA reduced-dimension (ARPACK) repeated fits compared through M'})
+    if spec[0] == 'large':
+        _, key, seed = spec
+        name = key.split('/')[0]
+        X, y, yr = large_data(seed)
+        target = yr if name == 'MLKR' else y
+        viol = []
+        n = 0
+        for rs_ in (0, 1):
+            p = dict(LARGE[key], random_state=rs_)
+            first = zoo.cls(name)(**p).fit(X.copy(), target.copy())
+            again = zoo.cls(name)(**p).fit(X.copy(), target.copy())      # a fresh clone on the same arguments
+            first.fit(X.copy(), target.copy())                            # and a repeated fit of the same object
+            n += 3
+            M0 = again.get_mahalanobis_matrix()
+            for lab, e in (('a repeated fit', first),):
+                if not np.array_equal(e.get_mahalanobis_matrix(), M0):
+                    dev = np.abs(e.get_mahalanobis_matrix() - M0).max() / max(np.abs(M0).max(), 1e-300)
+                    viol.append(V(name + '.fit', 'nondeterministic_with_integer_seed', 'with random_state=%d, %s and a fresh instance give different '
+                                  'metrics on a 520 x 60 dataset (relative difference %.3g) [%s]' % (rs_, lab, dev, LARGE[key]), ['large', key]))
+        return dict(evals=n, sigs={('large', key, 0), ('large', key, 1)}, viol=viol, states=2, transitions=n,
+                    sample={'case': 'repeat-fit determinism on a 520 x 60 dataset', 'learner': key, 'options': {k: v for k, v in LARGE[key].items()}})
     _, name, depth = spec
     s = Search(build=lambda: World(name), events=events, apply=apply, digest=world_digest,
                invariant=invariant_factory(name), depth=depth)
